@@ -99,6 +99,25 @@ def check_hp(n, res, viol):
 CONST_LEVELS = [0.0, 1.0, 5.0, 0.1, 0.3, 0.7, 1.0 / 3.0, 7e-7, 123456.789, -2.2, 1e-300, 1e300]
 
 
+def check_extreme_logs(n, res, viol):
+    """Positive series with an extreme dynamic range: every value and every logarithm is finite, ratios of neighbours are not."""
+    from black_it.utils import time_series as ts
+
+    t = np.arange(n, dtype=float)
+    for name, y in (("alt-1e-160/1e160", np.where(t % 2 == 0, 1e-160, 1e160)), ("loguniform-1e-300..1e300", 10.0 ** (((t * 7) % n) / max(1, n - 1) * 600.0 - 300.0)),
+                    ("tiny-then-huge", np.where(t < n // 2, 5e-324 * 1e10, 1e300))):
+        lg = np.log(y)
+        dl = np.diff(lg, prepend=lg[0])
+        exp = dl - np.mean(dl)
+        res["evaluations"] += 1
+        res["nontrivial"] += 1
+        with np.errstate(all="ignore"):
+            got = np.asarray(ts.diff_log_demean_filter(y.copy()))
+        if got.shape != (n,) or not np.all(np.isfinite(got)) or not np.allclose(got, exp, rtol=0, atol=1e-9 * np.max(np.abs(lg))):
+            viol("diff-log-demean", f"diff_log_demean_filter(n={n}, {name}): not the de-meaned first difference of the log (finite: {bool(np.all(np.isfinite(got))) if got.shape == (n,) else 'shape'})",
+                 {"mode": "extreme", "n": n})
+
+
 def check_moments(n, res, viol):
     from black_it.utils import time_series as ts
 
@@ -146,6 +165,7 @@ def run_cell(cell):
 
     for n in cell["hp"]:
         check_hp(n, res, viol)
+        check_extreme_logs(n, res, viol)
         res["outcomes"].add(("hp", n))
     for n in cell["moments"]:
         check_moments(n, res, viol)
@@ -163,7 +183,9 @@ def replay_case(case):
     def viol(key, what, c):
         found.append({"key": key, "what": what})
 
-    if case["mode"] == "hp":
+    if case["mode"] == "extreme":
+        check_extreme_logs(case["n"], res, viol)
+    elif case["mode"] == "hp":
         check_hp(case["n"], res, viol)
     else:
         check_moments(case["n"], res, viol)
